@@ -86,3 +86,578 @@ def _decode(paylen):
 
 for _n in (0, 2):
     _decode(_n)
+
+
+# ------------------------------------------------------------------------- TCP transport: framing
+
+SOCK = [TRN + ':SocketTransport.writePacket', TRN + ':SocketTransport._readData', TRN + ':SocketTransport.readPacket']
+
+
+def transport(c, sock):
+    """a SocketTransport on an already connected socket (the constructor opens a real TCP connection)"""
+    return c.obj(TRN + ':SocketTransport', _host='peer', _port=5000, _socket=sock)
+
+
+def stream_socket(c, name, stream, total):
+    """Sequential model of the receiving side of a connected TCP socket carrying the byte string `stream`
+    (spec name, `total` bytes): recv(n) returns a NON-EMPTY PREFIX of the unread bytes of length <= n; the length is
+    chosen by the environment (one `choice` per call, so every way of cutting the stream is explored).  With
+    nothing left to read a blocking socket blocks for ever: pseudo exception Deadlock."""
+    st = {'pos': 0, 'calls': 0, 'log': []}
+    block = c.raiser('Deadlock', 'recv on an exhausted stream blocks for ever')
+
+    def recv(_i, args, kwargs):
+        n = args[0]
+        if type(n) is not int:
+            raise TypeError('socket model: recv size must be a concrete int, got %r' % (n,))
+        if n <= 0:
+            return c.snapshot('_chunk', '%s[0:0]' % stream)
+        avail = total - st['pos']
+        if avail == 0:
+            return block()
+        k = c.choice('%s_cut%d' % (name, st['calls']), list(range(1, min(n, avail) + 1)))
+        st['calls'] += 1
+        lo = st['pos']
+        st['pos'] = lo + k
+        st['log'].append((n, k))
+        return c.snapshot('_chunk', '%s[%d:%d]' % (stream, lo, lo + k))
+    return c.ext(name, returns={'recv': recv}), st
+
+
+def _write(paylen):
+    @contract('C18', 'tcp.write.len%d' % paylen, [TRN + ':SocketTransport.writePacket'] + CODEC[:2],
+              clause='writePacket puts exactly one frame on the stream: 16-bit little-endian length of the CPX wire data, then '
+                     'the two header bytes and the payload; for every source/destination/function/flag combination',
+              bounded='payload length %d' % paylen, max_paths=1000)
+    def k(c):
+        p = packet(c, '', paylen)
+        tx = transport(c, c.ext('sock'))
+        c.call((tx, 'writePacket'), p)
+        c.ensure('no-exception', 'raised is None')
+        c.ensure('one-send-nothing-else', "calls() == ('sock.send',)")
+        c.ensure('frame', "bytes(sent('sock.send')[0][1][0]) == pack('<HBB', %d, (src << 3) | dst | (0x40 if last else 0), fn) + bytes(pay)"
+                 % (paylen + 2))
+    return k
+
+
+for _n in (0, 1, 30):
+    _write(_n)
+
+
+@contract('C18', 'tcp.write.limit', [TRN + ':SocketTransport.writePacket'],
+          clause='payload lengths up to the maximum the 16-bit frame length can express (65533) are framed with the exact length; '
+                 'a longer packet is refused (struct.error) with nothing put on the stream - the length never wraps around',
+          bounded='payload lengths 65533 and 65534, one header')
+def write_limit(c):
+    n = c.choice('n', [65533, 65534])
+    p = c.new(CPX + ':CPXPacket', function=c.new(CPX + ':CPXFunction', 5), destination=c.new(CPX + ':CPXTarget', 4),
+              source=c.new(CPX + ':CPXTarget', 3), data=bytearray(n))
+    tx = transport(c, c.ext('sock'))
+    c.call((tx, 'writePacket'), p)
+    if n == 65533:
+        c.ensure('sent-with-exact-length', "raised is None and calls() == ('sock.send',) and "
+                 "bytes(sent('sock.send')[0][1][0])[0:4] == pack('<HBB', 65535, 0x1C, 5) and len(sent('sock.send')[0][1][0]) == 65537")
+    else:
+        c.ensure('refused-nothing-sent', "raised == 'struct.error' and calls() == ()")
+
+
+def _read_data(size, extra):
+    @contract('C18', 'tcp.readData.%d_of_%d' % (size, size + extra), [TRN + ':SocketTransport._readData'],
+              clause='_readData(size) returns exactly the next `size` bytes of the stream and consumes exactly those, however the '
+                     'stream is cut into receive chunks',
+              bounded='size %d, %d further bytes in the stream; all %d fragmentations' % (size, extra, 2 ** max(size - 1, 0)))
+    def k(c):
+        c.bytes('S', size + extra)
+        sock, st = stream_socket(c, 'sock', 'S', size + extra)
+        rx = transport(c, sock)
+        c.call((rx, '_readData'), size)
+        c.let('pos', st['pos'])
+        c.let('log', tuple(st['log']))
+        c.ensure('no-exception', 'raised is None')
+        c.ensure('exact-prefix', "typename(result) == 'bytearray' and bytes(result) == S[0:%d]" % size)
+        c.ensure('consumed-exactly', 'pos == %d' % size)
+        c.ensure('never-asks-for-more-than-missing', 'all(log[i][0] == %d - sum(e[1] for e in log[:i]) for i in range(len(log)))' % size)
+    return k
+
+
+for _a in ((0, 1), (1, 0), (2, 3), (5, 2)):
+    _read_data(*_a)
+
+
+def fixed_packet(c, tag, fields, paylen):
+    """a real CPXPacket with the given (source, destination, function, last) and a symbolic payload"""
+    src, dst, fn, last = fields
+    payload = c.bytearray('pay' + tag, paylen)
+    p = c.new(CPX + ':CPXPacket', function=c.new(CPX + ':CPXFunction', fn), destination=c.new(CPX + ':CPXTarget', dst),
+              source=c.new(CPX + ':CPXTarget', src), data=payload)
+    c.let('p' + tag, p)
+    c.let('last' + tag, last)
+    c.snapshot('_', 'setattr(p%s, "lastPacket", last%s)' % (tag, tag))
+    return p
+
+
+HEADERS = ((1, 3, 3, True), (4, 3, 5, False), (1, 3, 3, False), (2, 3, 2, True), (3, 1, 15, False))
+
+
+def write_stream(c, lens, symbolic_fields):
+    """the byte stream produced by the REAL writePacket for packets with the given payload lengths -> spec name S"""
+    tx = transport(c, c.ext('wsock'))
+    for i, n in enumerate(lens):
+        p = packet(c, str(i), n) if symbolic_fields else fixed_packet(c, str(i), HEADERS[i % len(HEADERS)], n)
+        c.call((tx, 'writePacket'), p)
+        c.ensure('write%d-no-exception' % i, 'raised is None')
+    c.snapshot('S', ' + '.join("bytes(sent('wsock.send')[%d][1][0])" % i for i in range(len(lens))))
+    c.ensure('stream-is-concatenation-of-frames', "len(sent('wsock.send')) == %d and len(S) == %d" % (len(lens), sum(n + 4 for n in lens)))
+    return sum(n + 4 for n in lens)
+
+
+def same_packet(i):
+    return ("is_same(r{0}.source, p{0}.source) and is_same(r{0}.destination, p{0}.destination) and is_same(r{0}.function, p{0}.function) "
+            "and r{0}.lastPacket == last{0} and bytes(r{0}.data) == bytes(pay{0}) and r{0}.length == len(pay{0})").format(i)
+
+
+def _reassembly(lens, symbolic_fields=False):
+    nfrag = 1
+    for n in lens:
+        nfrag *= 2 * 2 ** (n + 1)
+    name = 'tcp.reassembly.' + '_'.join(str(n) for n in lens) + ('.allheaders' if symbolic_fields else '')
+
+    @contract('C18', name, SOCK + CODEC,
+              clause='a TCP byte stream carrying a sequence of packets (written by writePacket) is re-assembled by readPacket into '
+                     'exactly that sequence - same five fields, same payload, each read consuming exactly its frame - however the '
+                     'stream is cut into receive chunks',
+              bounded='%d packet(s) with payload lengths %s, %s; all %d fragmentations of the %d-byte stream (exhaustive)' % (
+                  len(lens), list(lens), 'all header combinations' if symbolic_fields else 'headers %r' % (HEADERS[:len(lens)],),
+                  nfrag, sum(n + 4 for n in lens)),
+              max_paths=6000)
+    def k(c):
+        total = write_stream(c, lens, symbolic_fields)
+        sock, st = stream_socket(c, 'rsock', 'S', total)
+        rx = transport(c, sock)
+        end = 0
+        for i, n in enumerate(lens):
+            end += n + 4
+            c.call((rx, 'readPacket'))
+            c.let('pos', st['pos'])
+            c.ensure('read%d-no-exception' % i, 'raised is None')
+            if c.get('raised') is not None:
+                return
+            c.snapshot('r%d' % i, 'result')
+            c.ensure('read%d-same-packet' % i, same_packet(i))
+            c.ensure('read%d-consumes-exactly-its-frame' % i, 'pos == %d' % end)
+    return k
+
+
+_reassembly((0,), True)
+_reassembly((1,), True)
+_reassembly((0, 1, 2))
+_reassembly((2, 0, 1))
+_reassembly((3, 3))
+_reassembly((6,))
+
+
+# ------------------------------------------------------------------------- router
+
+ROUTER = [CPX + ':CPXRouter.__init__', CPX + ':CPXRouter.run', CPX + ':CPXRouter.receivePacket']
+
+
+def scripted(c, items, stop='StopLoop'):
+    """callable returning the items one by one; afterwards the endless service loop is left by a pseudo exception
+    (a BaseException, so that `except Exception` in the loop cannot swallow it)"""
+    todo = list(items)
+    leave = c.raiser(stop, 'script exhausted')
+
+    def nxt(*_a):
+        if todo:
+            return todo.pop(0)
+        return leave()
+    return nxt
+
+
+def drain(c, router, fn, upto, tag):
+    """receivePacket(fn) until the queue is empty -> number of packets handed out (spec names <tag>0, <tag>1, ...)"""
+    got = 0
+    while True:
+        c.call((router, 'receivePacket'), fn, timeout=0)
+        if c.get('raised') is not None or got > upto:
+            return got
+        c.snapshot('%s%d' % (tag, got), 'result')
+        got += 1
+
+
+def _dispatch(npk):
+    @contract('C18', 'router.dispatch.%dpk' % npk, ROUTER,
+              clause='received packets are queued per function in arrival order and handed only to receivers of that function: a '
+                     'receiver of function r gets exactly the packets whose function value is r, the identical objects, in arrival '
+                     'order; for all function values 0..63 of packets and receivers (also values outside the enumeration); a packet '
+                     'arriving while no receiver has registered for its function is dropped (behaviour of the code, stated)',
+              bounded='%d packets, two registered receivers with different functions and one late receiver' % npk)
+    def k(c):
+        fs = [c.int('f%d' % i, 0, 63) for i in range(npk)]
+        pks = [c.ext('pk%d' % i, attrs={'function': c.ext('fn%d' % i, attrs={'value': fs[i]})}) for i in range(npk)]
+        c.int('r1', 0, 63), c.int('r2', 0, 63), c.int('r3', 0, 63)
+        c.require('r1 != r2 and r3 != r1 and r3 != r2')
+        rcv = [c.ext('rcv%d' % j, attrs={'value': c.get('r%d' % j)}) for j in (1, 2, 3)]
+        router = c.new(CPX + ':CPXRouter', c.ext('transport', returns={'readPacket': scripted(c, pks)}))
+        for j in (0, 1):        # a receiver registers by waiting for a packet of its function
+            c.call((router, 'receivePacket'), rcv[j], timeout=0)
+            c.ensure('nothing-before-arrival-%d' % j, "raised == 'queue.Empty'")
+        c.reset_trace()
+        c.call((router, 'run'))
+        c.ensure('loop-runs-through-the-script', "raised == 'StopLoop' and calls() == ('transport.readPacket',) * %d" % (npk + 1))
+        for j, r in ((0, 'r1'), (1, 'r2')):
+            tag = 'g%d_' % j
+            got = drain(c, router, rcv[j], npk, tag)
+            c.let('got', got)
+            c.ensure('%s-ends-with-empty-queue' % r, "raised == 'queue.Empty'")
+            c.ensure('%s-gets-every-packet-of-its-function' % r, 'got == ' + ' + '.join('(f%d == %s)' % (i, r) for i in range(npk)))
+            for m in range(got):
+                c.ensure('%s-packet%d-has-its-function' % (r, m), '%s%d.function.value == %s' % (tag, m, r))
+                for i in range(npk):
+                    before = ' + '.join(['0'] + ['(f%d == %s)' % (e, r) for e in range(i)])
+                    c.ensure('%s-arrival-order-%d-%d' % (r, m, i),
+                             'implies(f%d == %s and (%s) == %d, is_same(%s%d, pk%d))' % (i, r, before, m, tag, m, i))
+        got = drain(c, router, rcv[2], npk, 'late')
+        c.let('got', got)
+        c.ensure('late-receiver-gets-nothing (packets without a registered receiver were dropped)', "got == 0 and raised == 'queue.Empty'")
+    return k
+
+
+_dispatch(1)
+_dispatch(3)
+
+
+# ------------------------------------------------------------------------- CRTP tunnelled through CPX
+
+def crtp_packet(c):
+    """a real CRTPPacket with any header byte and any payload of 0..30 bytes (31 paths: complete for the CRTP payload sizes)"""
+    n = c.choice('n', list(range(31)))
+    c.int('h', 0, 255)
+    data = c.bytes('data', n)
+    pk = c.new(STK + ':CRTPPacket', c.get('h'), data)
+    c.let('pk', pk)
+    return pk, n
+
+
+UPLINK = ('uplink: a CRTP packet handed to the driver leaves as exactly one CPX packet from HOST to STM32, function CRTP, whose '
+          'payload is the CRTP header byte followed by the unchanged CRTP payload; for all 256 header bytes and all payload '
+          'lengths 0..30')
+
+
+@contract('C18', 'TcpDriver.send_packet', [TCP + ':TcpDriver.__init__', TCP + ':TcpDriver.send_packet', CPX + ':CPX.sendPacket', CPX + ':CPXRouter.sendPacket',
+                                           TRN + ':SocketTransport.writePacket'] + CODEC,
+          clause=UPLINK + '; through the real CPX facade, router and TCP transport: exactly one frame on the socket, nothing else')
+def tcp_uplink(c):
+    pk, n = crtp_packet(c)
+    router = c.new(CPX + ':CPXRouter', transport(c, c.ext('sock')))
+    drv = c.new(TCP + ':TcpDriver')
+    c.let('drv', drv)
+    c.let('facade', c.obj(CPX + ':CPX', _router=router))        # CPX.__init__ would start the router thread
+    c.snapshot('_', 'setattr(drv, "cpx", facade)')
+    c.reset_trace()
+    c.call((drv, 'send_packet'), pk)
+    c.ensure('no-exception', 'raised is None')
+    c.ensure('one-frame-nothing-else', "calls() == ('sock.send',)")
+    c.snapshot('frame', "bytes(sent('sock.send')[0][1][0])")
+    c.ensure('frame-on-the-stream', "frame == pack('<HBBB', %d, (3 << 3) | 1, 3, h | 0x0C) + data" % (n + 3))
+    c.ensure('crtp-header-is-the-packets', 'frame[4] == pk.header and pk.header == pk.get_header()')
+    q = c.new(CPX + ':CPXPacket')
+    c.let('q', q)
+    c.call((q, '_set_wire_data'), c.snapshot('wire', 'bytearray(frame[2:])'))
+    c.ensure('peer-decodes-route-and-payload', "raised is None and q.source.value == 3 and q.destination.value == 1 and "
+             "q.function.value == 3 and bytes(q.data) == pack('<B', pk.header) + data")
+
+
+@contract('C18', 'SerialDriver.send_packet', [SER + ':SerialDriver.__init__', SER + ':SerialDriver.send_packet'] + CODEC[:2], clause=UPLINK)
+def serial_uplink(c):
+    pk, n = crtp_packet(c)
+    drv = c.new(SER + ':SerialDriver')
+    c.let('drv', drv)
+    c.let('facade', c.ext('cpx'))
+    c.snapshot('_', 'setattr(drv, "cpx", facade)')
+    c.reset_trace()
+    c.call((drv, 'send_packet'), pk)
+    c.ensure('no-exception', 'raised is None')
+    c.ensure('one-cpx-packet-nothing-else', "calls() == ('cpx.sendPacket',)")
+    c.snapshot('q', "sent('cpx.sendPacket')[0][1][0]")
+    c.ensure('route', "typename(q) == 'CPXPacket' and q.source.value == 3 and q.destination.value == 1 and q.function.value == 3")
+    c.ensure('payload-is-header-then-data', 'bytes(q.data) == pack("<B", h | 0x0C) + data and q.length == %d' % (n + 1))
+    c.ensure('crtp-header-is-the-packets', 'q.data[0] == pk.header and pk.header == pk.get_header()')
+    c.call((c.get('q'), '_get_wire_data'))
+    c.ensure('wire-data', "raised is None and bytes(result) == pack('<BBB', (3 << 3) | 1, 3, h | 0x0C) + data")
+
+
+def _downlink(mod, poll_timeout):
+    short = mod.rsplit('.', 1)[1]
+
+    @contract('C18', '%s.receive_thread' % short, [mod + ':_CPXReceiveThread.__init__', mod + ':_CPXReceiveThread.run', CODEC[2], STK + ':CRTPPacket.__init__'],
+              clause='downlink: every CPX packet of function CRTP (decoded from its wire bytes) whose payload is a CRTP header byte '
+                     'followed by 0..30 payload bytes is put on the driver\'s queue as exactly one CRTP packet with that port, '
+                     'channel and header (the two link bits 0x0C are always set by CRTPPacket) and the unchanged payload; the thread '
+                     'asks the router for function CRTP only; the link-error callback is not used; for all 256 header bytes')
+    def k(c):
+        n = c.choice('n', list(range(31)))
+        c.int('h', 0, 255)
+        data = c.bytes('data', n)
+        c.snapshot('wire', 'bytearray(pack("<BBB", (1 << 3) | 3 | 0x40, 3, h) + data)')
+        cp = c.new(CPX + ':CPXPacket')
+        c.invoke((cp, '_set_wire_data'), c.get('wire'))
+        cpx = c.ext('cpx', returns={'receivePacket': scripted(c, [cp])})
+        thr = c.new(mod + ':_CPXReceiveThread', cpx, c.queue('inq'), c.ext('link_error'))
+        c.reset_trace()
+        c.call((thr, 'run'))
+        c.ensure('loop-runs-through-the-script', "raised == 'StopLoop' and len(sent('cpx.receivePacket')) == 2")
+        c.ensure('asks-for-function-CRTP-only', "all(len(e[1]) == 1 and e[1][0].value == 3 and typename(e[1][0]) == 'CPXFunction' "
+                 "and e[2] == {'timeout': %r} for e in sent('cpx.receivePacket'))" % poll_timeout)
+        c.ensure('exactly-one-crtp-packet-queued', "len(inq.queue) == 1")
+        c.ensure('no-link-error', "len(calls('link_error')) == 0")
+        if c.snapshot('queued', 'len(inq.queue)') == 1:
+            c.snapshot('pk', "inq.queue[0]")
+            c.ensure('header', "typename(pk) == 'CRTPPacket' and pk.port == h >> 4 and pk.channel == h & 3 and pk.header == h | 0x0C "
+                               "and pk.get_header() == ((h & 0xF3) | 0x0C)")
+            c.ensure('payload-unchanged', 'bytes(pk.data) == data and len(pk.data) == %d' % n)
+    return k
+
+
+_downlink(TCP, 0.1)
+_downlink(SER, 1)
+
+
+def _downlink_empty(mod):
+    short = mod.rsplit('.', 1)[1]
+
+    @contract('C18', '%s.receive_thread.no_crtp_header' % short, [mod + ':_CPXReceiveThread.run'],
+              clause='a CPX packet of function CRTP with an empty payload carries no CRTP packet: nothing is queued and no link error '
+                     'is reported (frame of the downlink clause)')
+    def k(c):
+        cp = c.new(CPX + ':CPXPacket')
+        c.invoke((cp, '_set_wire_data'), bytearray([(1 << 3) | 3, 3]))
+        cpx = c.ext('cpx', returns={'receivePacket': scripted(c, [cp])})
+        thr = c.new(mod + ':_CPXReceiveThread', cpx, c.queue('inq'), c.ext('link_error'))
+        c.reset_trace()
+        c.call((thr, 'run'))
+        c.ensure('nothing-queued-no-error', "raised == 'StopLoop' and len(inq.queue) == 0 and len(calls('link_error')) == 0")
+    return k
+
+
+_downlink_empty(TCP)
+_downlink_empty(SER)
+
+
+# ------------------------------------------------------------------------- stream -> router -> receivers (integration)
+
+def _pipeline(lens, bad_at=None):
+    """HEADERS give the functions CRTP, APP, CRTP, CONSOLE, BOOTLOADER in turn; receivers: CRTP and APP registered, CONSOLE not"""
+    name = 'pipeline.' + '_'.join(str(n) for n in lens) + ('' if bad_at is None else '.bad_version_at_%d' % bad_at)
+    nfrag = 1
+    for n in lens:
+        nfrag *= 2 * 2 ** (n + 1)
+    if bad_at is not None:
+        nfrag *= 2 * 4
+
+    @contract('C18', name, SOCK + CODEC + ROUTER,
+              clause='a fragmented TCP stream of frames run through the real transport and the real router loop reaches the '
+                     'receivers: each registered receiver gets exactly the packets of its function, in arrival order, fields and '
+                     'payload intact, nothing of another function'
+                     + ('' if bad_at is None else '; a frame with an unsupported version in the stream is consumed and rejected '
+                        'without disturbing the framing of the packets behind it'),
+              bounded='%d packets with payload lengths %s and headers %r; all %d fragmentations (exhaustive)' % (
+                  len(lens), list(lens), HEADERS[:len(lens)], nfrag), max_paths=6000)
+    def k(c):
+        total = write_stream(c, lens, False)
+        if bad_at is not None:
+            c.int('badver', 1, 3), c.int('x', 0, 255)
+            cut = sum(n + 4 for n in lens[:bad_at])
+            c.snapshot('S', "S[0:%d] + pack('<HBBB', 3, (1 << 3) | 3, (badver << 6) | 3, x) + S[%d:]" % (cut, cut))
+            total += 5
+        sock, st = stream_socket(c, 'rsock', 'S', total)
+        router = c.new(CPX + ':CPXRouter', transport(c, sock))
+        crtp, app, console = [c.new(CPX + ':CPXFunction', v) for v in (3, 5, 2)]
+        for f in (crtp, app):
+            c.call((router, 'receivePacket'), f, timeout=0)
+            c.ensure('nothing-before-arrival', "raised == 'queue.Empty'")
+        c.call((router, 'run'))
+        c.let('pos', st['pos'])
+        c.ensure('loop-reads-the-whole-stream-then-blocks', "raised == 'Deadlock' and pos == %d" % total)
+        for f, val, tag in ((crtp, 3, 'crtp'), (app, 5, 'app'), (console, 2, 'console')):
+            want = [i for i in range(len(lens)) if HEADERS[i % len(HEADERS)][2] == val and val != 2]
+            got = drain(c, router, f, len(lens), tag)
+            c.let('got', got)
+            c.ensure('%s-receiver-gets-%d-packets' % (tag, len(want)), "got == %d and raised == 'queue.Empty'" % len(want))
+            for m, i in enumerate(want[:got]):
+                c.ensure('%s-receiver-packet-%d-is-sent-packet-%d' % (tag, m, i), same_packet(i).replace('r%d.' % i, '%s%d.' % (tag, m)))
+    return k
+
+
+_pipeline((1, 0, 1))
+_pipeline((0, 1, 0, 0))
+_pipeline((1, 1), bad_at=1)
+_pipeline((0, 2), bad_at=0)
+
+
+# ------------------------------------------------------------------------- every fragmentation, every length (inductive)
+
+def free_stream_socket(c, S, ghost):
+    """The socket model of `stream_socket` for a stream of SYMBOLIC length and symbolic read position: recv(n) returns
+    S[pos:pos+k] for an environment-chosen k with 1 <= k <= min(n, len(S) - pos) - k is universally quantified in the
+    proof (fresh symbol `cut!i`); natively it is taken from the solver model, or as large as allowed when the model
+    does not constrain it.  ghost.pos is the number of bytes consumed so far."""
+    block = c.raiser('Deadlock', 'recv on an exhausted stream blocks for ever')
+    st = {'calls': 0}
+
+    def recv(I, args, kwargs):
+        n = args[0]
+        if I is None:                                           # native: concrete stream
+            pos = ghost.pos
+            avail = len(S) - pos
+            if n <= 0:
+                return b''
+            if avail <= 0:
+                return block()
+            k = int(c.values.get('cut!%d' % st['calls'], min(n, avail)))
+            st['calls'] += 1
+            assert 1 <= k <= min(n, avail), 'socket model: cut %d outside 1..min(%d, %d)' % (k, n, avail)
+            ghost.pos = pos + k
+            return bytes(S[pos:pos + k])
+        import z3
+        from pyvc.values import SSeq
+        from pyvc.ops import zterm, mk_int
+        pos = zterm(ghost.attrs['pos'])
+        avail = z3.Length(S.t) - pos
+        if not I.path.decide(zterm(n) > 0):
+            return SSeq(z3.Empty(S.t.sort()), 'bytes')
+        if not I.path.decide(avail > 0):
+            return block()
+        k = I.fresh_int('cut', 1)
+        I.path.assume(z3.And(k.t <= zterm(n), k.t <= avail))
+        ghost.attrs['pos'] = mk_int(pos + k.t)
+        return SSeq(z3.SubSeq(S.t, pos, k.t), 'bytes')
+    return c.ext('sock', returns={'recv': recv})
+
+
+@contract('C18', 'tcp.readData.inductive', [TRN + ':SocketTransport._readData'],
+          clause='_readData(size) returns exactly the next `size` bytes of the stream and consumes exactly those for EVERY way of '
+                 'cutting the stream into receive chunks and every size (loop invariant: data == S[start:start+len(data)], '
+                 'pos == start + len(data), len(data) <= size; variant size - len(data); each recv length universally quantified)',
+          bounded='size and stream length up to 70000 (any bound works; it only keeps the solver in linear arithmetic)')
+def read_data_inductive(c):
+    S = c.seq('S', 'bytes', 70000)
+    c.int('size', 0, 70000), c.int('start', 0, 70000)
+    c.require('start + size <= len(S)')
+    ghost = c.ext('ghost', attrs={'pos': c.get('start')})
+    rx = transport(c, free_stream_socket(c, S, ghost))
+    if c.backend == 'sym':
+        import z3
+        from pyvc.values import SSeq
+        c.I.spec_env = {'S': S, 'ghost': ghost, 'start': c.get('start')}
+
+        def havoc(I, fr):
+            fr.vars['data'] = SSeq(z3.Const(I.path.fresh_name('data'), S.t.sort()), 'bytearray')
+            ghost.attrs['pos'] = I.fresh_int('pos')
+        c.loop_invariant(TRN + ':SocketTransport._readData', '#1',
+                         ['0 <= len(data) and len(data) <= size', 'ghost.pos == start + len(data)',
+                          'data == S[start:start + len(data)]'], havoc, [], variant='size - len(data)')
+    c.call((rx, '_readData'), c.get('size'))
+    c.ensure('no-exception', 'raised is None')
+    c.ensure('exact-bytes', "typename(result) == 'bytearray' and result == S[start:start + size]")
+    c.ensure('consumed-exactly', 'ghost.pos == start + size')
+
+
+@contract('C18', 'tcp.readPacket.inductive', [TRN + ':SocketTransport.readPacket', CPX + ':CPXPacket.__init__', CODEC[2]],
+          clause='readPacket on a stream that starts with a frame <16-bit length n><n wire bytes> consumes exactly 2 + n bytes and '
+                 'returns the packet those wire bytes encode (fields from the header bits, payload = the bytes behind the header), '
+                 'for every n in 0..65535, every content, every fragmentation; _readData is used through its contract '
+                 '(tcp.readData.inductive); frames that do not decode (n < 2, unsupported version, values outside the '
+                 'enumerations) raise AFTER the frame has been consumed, so the framing of the following packets is kept',
+          max_paths=2000)
+def read_packet_inductive(c):
+    c.int('n', 0, 65535)
+    W = c.seq('W', 'bytes', 65535)
+    rest = c.seq('rest', 'bytes', 10)
+    c.require('len(W) == n')
+    S = c.snapshot('S', "pack('<H', n) + W + rest")
+    ghost = c.ext('ghost', attrs={'pos': 0})
+    rx = transport(c, free_stream_socket(c, S, ghost))
+    if c.backend == 'sym':
+        import z3
+        from pyvc.values import SSeq
+        from pyvc.ops import zterm, mk_int
+
+        def read_data(I, f, args, kwargs):
+            """contract of _readData proved in tcp.readData.inductive"""
+            size, pos = zterm(args[1]), zterm(ghost.attrs['pos'])
+            if not I.path.decide(z3.And(size >= 0, pos + size <= z3.Length(S.t))):
+                I.raise_py('Deadlock', 'stream exhausted')
+            ghost.attrs['pos'] = mk_int(pos + size)
+            return SSeq(z3.SubSeq(S.t, pos, size), 'bytearray')
+        c.summary(TRN + ':SocketTransport._readData', read_data)
+    c.call((rx, 'readPacket'))
+    c.snapshot('ok', 'n >= 2 and (W[1] >> 6) == 0 and ((W[0] >> 3) & 7) in %r and (W[0] & 7) in %r and (W[1] & 0x3F) in %r'
+               % (TARGETS, TARGETS, FUNCTIONS) if c.get('raised') is None else 'False')
+    c.ensure('frame-consumed-exactly-whatever-the-outcome', 'ghost.pos == 2 + n')
+    c.ensure('only-declared-errors', "raised in (None, 'struct.error', 'RuntimeError', 'ValueError')")
+    c.ensure('too-short-for-a-header', "iff(raised == 'struct.error', n < 2)")
+    if c.get('raised') is None:
+        c.ensure('accepted-only-if-decodable', 'ok')
+        c.snapshot('r', 'result')
+        c.ensure('fields', "typename(r) == 'CPXPacket' and r.source.value == (W[0] >> 3) & 7 and r.destination.value == W[0] & 7 and "
+                           "r.function.value == W[1] & 0x3F and r.lastPacket == ((W[0] & 0x40) != 0) and r.version == 0")
+        c.ensure('payload-and-length', 'r.data == W[2:] and r.length == n - 2')
+    elif c.get('raised') == 'RuntimeError':
+        c.ensure('unsupported-version', '(W[1] >> 6) != 0')
+    elif c.get('raised') == 'ValueError':
+        c.ensure('outside-the-enumerations', '(W[1] >> 6) == 0 and not (((W[0] >> 3) & 7) in %r and (W[0] & 7) in %r and (W[1] & 0x3F) in %r)'
+                 % (TARGETS, TARGETS, FUNCTIONS))
+
+
+# ------------------------------------------------------------------------- downlink end to end (sequential schedule)
+
+@contract('C18', 'tcpdriver.downlink.end_to_end',
+          SOCK + CODEC + ROUTER + [CPX + ':CPX.receivePacket', TCP + ':_CPXReceiveThread.run', STK + ':CRTPPacket.__init__'],
+          clause='CRTP packets tunnelled through CPX arrive with header and payload unchanged: frames written by the peer on the TCP '
+                 'stream, cut arbitrarily, pass the real transport, router loop, CPX facade and the driver\'s receive loop and end '
+                 'up on the driver\'s queue as the same CRTP packets in the same order; packets of another function do not',
+          bounded='one sequential schedule (receiver registers, router loop runs until the stream is exhausted, receive loop polls twice): '
+                  'frames CRTP[h0], APP[], CRTP[h2, d2] - CRTP payload lengths 0 and 1; all 512 fragmentations', max_paths=2000)
+def downlink_e2e(c):
+    lens = (1, 0, 2)
+    total = write_stream(c, lens, False)        # headers: STM32->HOST CRTP, GAP8->HOST APP, STM32->HOST CRTP
+    sock, st = stream_socket(c, 'rsock', 'S', total)
+    router = c.new(CPX + ':CPXRouter', transport(c, sock))
+    facade = c.obj(CPX + ':CPX', _router=router)
+    stop = c.raiser('StopLoop', 'schedule: receive loop pre-empted')
+    budget = {'polls': 2}
+
+    def poll(_i, args, kwargs):
+        if budget['polls'] == 0:
+            return stop()
+        budget['polls'] -= 1
+        return c.invoke((facade, 'receivePacket'), *args, **kwargs)
+    thr = c.new(TCP + ':_CPXReceiveThread', c.ext('cpx', returns={'receivePacket': poll}), c.queue('inq'), c.ext('link_error'))
+    # the receive loop's first poll registers the CRTP receiver at the router; done here with timeout 0 instead of 0.1 s
+    c.call((facade, 'receivePacket'), c.new(CPX + ':CPXFunction', 3), timeout=0)
+    c.ensure('registered-nothing-yet', "raised == 'queue.Empty'")
+    c.call((router, 'run'))
+    c.let('pos', st['pos'])
+    c.ensure('router-reads-the-whole-stream', "raised == 'Deadlock' and pos == %d" % total)
+    c.call((thr, 'run'))
+    c.ensure('receive-loop-survives', "raised == 'StopLoop' and len(calls('link_error')) == 0")
+    c.ensure('two-crtp-packets-queued', 'len(inq.queue) == 2')
+    if c.snapshot('queued', 'len(inq.queue)') == 2:
+        c.snapshot('a', 'inq.queue[0]')
+        c.snapshot('b', 'inq.queue[1]')
+        c.ensure('first-packet', 'a.port == pay0[0] >> 4 and a.channel == pay0[0] & 3 and a.header == pay0[0] | 0x0C and bytes(a.data) == b""')
+        c.ensure('second-packet', 'b.port == pay2[0] >> 4 and b.channel == pay2[0] & 3 and b.header == pay2[0] | 0x0C and '
+                                  'bytes(b.data) == bytes(pay2[1:])')
+
+
+@contract('C18', 'router.sendPacket', [CPX + ':CPXRouter.sendPacket', CPX + ':CPX.sendPacket'],
+          clause='the facade and the router hand a packet to the transport unchanged, exactly once (frame of the uplink clause)')
+def router_send(c):
+    router = c.new(CPX + ':CPXRouter', c.ext('transport'))
+    facade = c.obj(CPX + ':CPX', _router=router)
+    p = c.ext('packet')
+    c.let('p', p)
+    c.call((facade, 'sendPacket'), p)
+    c.ensure('one-write-of-the-same-object', "raised is None and calls() == ('transport.writePacket',) and "
+             "is_same(sent('transport.writePacket')[0][1][0], p) and len(sent('transport.writePacket')[0][1]) == 1")
